@@ -34,6 +34,9 @@ BODIES = {
     "fiber_worker_chain": "var stage = Fiber.new(|| { var prev = keep[(i + KEEP - 1) % KEEP]; var w = Fiber.new(|| { return [i]; }); w.call(); keep[i % KEEP] = w; return prev; }); stage.call(); total += 1;",
     "fiber_worker_yielding": "var stage = Fiber.new(|| { var prev = keep[(i + KEEP - 1) % KEEP]; var w = Fiber.new(|| { Fiber.yield(1); return [i]; }); w.call(); w.call(); keep[i % KEEP] = [w, type(prev)]; return 0; }); stage.call(); total += 1;",
     "fiber_finished_kept": "var w = Fiber.new(|a| { return [a, keep[(i + 1) % KEEP] == nil]; }); w.call(i); keep[i % KEEP] = w; total += 1;",
+    "fiber_finished_kept_chain": "var prev = keep[(i + KEEP - 1) % KEEP]; var w = Fiber.new(|p| { var local = [p, i]; return 1; }); w.call(prev); keep[i % KEEP] = w; total += 1;",
+    "fiber_finished_kept_chain_nested": "var prev = keep[(i + KEEP - 1) % KEEP]; var w = Fiber.new(|p| { fn inner(q) { var t = (q, i); return 2; } var u = [p]; return inner(u); }); w.call(prev); keep[i % KEEP] = w; total += 1;",
+    "fiber_finished_after_yield_chain": "var prev = keep[(i + KEEP - 1) % KEEP]; var w = Fiber.new(|p| { var a = [p]; var got = Fiber.yield(1); var b = [got, a]; return 3; }); w.call(prev); w.call(prev); keep[i % KEEP] = w; total += 1;",
     "fiber_calls_kept_suspended": "var prev = keep[(i + KEEP - 1) % KEEP]; var fb = Fiber.new(|a| { var x = [a]; while true { x = [Fiber.yield(x)]; } }); fb.call(i); if type(prev) == Fiber { if !prev.has_finished() { prev.call(i); } } keep[i % KEEP] = fb; total += 1;",
     "fiber_stage_closure": "var prev = keep[(i + KEEP - 1) % KEEP]; var fb = Fiber.new(|p| { var state = [0]; return |v| { state[0] = state[0] + v; return state[0]; }; }); var acc = fb.call(prev); acc(i); keep[i % KEEP] = acc; total += 1;",
     "fiber_stage_param_closure": "var prev = keep[(i + KEEP - 1) % KEEP]; var fb = Fiber.new(|p| { var mine = [i]; var pad = p; Fiber.yield(|| mine); return 0; }); var g = fb.call(prev); fb.call(); keep[i % KEEP] = g; total += g().len();",
